@@ -179,7 +179,18 @@ def gen_task(r: random.Random, family: str, minmax: str | None = None, dim_max: 
             vars_.append({"type": "perm", "name": "p", "items": list(range(perm_n))})
     elif family == "permutation":
         perm_n = r.randrange(3, 8)
-        vars_.append({"type": "perm", "name": "routes", "items": list(range(perm_n))})
+        v = {"type": "perm", "name": "routes", "items": list(range(perm_n))}
+        if r.random() < 0.45:
+            # named items (strings, declared in sorted order so that label i <-> index i), and an objective that
+            # decodes its argument through the library (Task.transform_solution), like the repository's TSP example
+            v["labels"] = [f"{r.choice(['city', 'node', 'job'])}{i:02d}" for i in range(perm_n)]
+            if r.random() < 0.5:
+                v["labels"] = ["z" + l if r.random() < 0.3 else l for l in v["labels"]]
+            v["labels"] = sorted(set(v["labels"]))
+            while len(v["labels"]) < perm_n:
+                v["labels"].append(f"zz{len(v['labels']):02d}")
+            v["labels"] = sorted(v["labels"])
+        vars_.append(v)
     else:
         raise ValueError(family)
 
@@ -194,6 +205,8 @@ def gen_task(r: random.Random, family: str, minmax: str | None = None, dim_max: 
         desc["weights"] = w
     else:
         desc["objective"] = _scalar_spec(r, lows, highs, has_perm=perm_n)
+        if family == "permutation" and vars_[0].get("labels"):
+            desc["objective"]["via_decode"] = True
     return desc
 
 
